@@ -86,12 +86,14 @@ def ml_mstep(st, w, mu, var, sw, floor_n, var_floor):
     parameter groups. sw = (means, variances, weights). Returns (w, mu, var, info)."""
     um, uv, uw = sw
     n = np.maximum(st["n"], floor_n)
-    count_floor_active = bool(np.any(st["n"] < floor_n))
+    starved = (st["n"] < floor_n)[:, None]  # no data: mean and variance are not estimable and stay where they are
+    count_floor_active = bool(np.any(starved))
     w2 = n / st["t"] if uw else np.array(w, float)
-    mu2 = st["px"] / n[:, None] if um else np.array(mu, float)
+    mu2 = np.where(starved, np.array(mu, float), st["px"] / n[:, None]) if um else np.array(mu, float)
     if uv:
         # sum_i r_ic (x_i - mu_c)^2 / n_c with the *current* (possibly just updated) mean
         raw = (st["pxx"] - 2 * mu2 * st["px"] + mu2 * mu2 * st["n"][:, None]) / n[:, None]
+        raw = np.where(starved, np.array(var, float), raw)
         var2 = np.maximum(raw, var_floor)
         floor_active = bool(np.any(raw < var_floor))
     else:
